@@ -143,5 +143,14 @@ CLAIMS = {
         "note": TRUST + "acceptance by the real cloud service; JSON/KeyError on malformed server answers are outside the property",
         "technique": "value-flow provenance + retry-loop exploration (static analysis)",
     },
+    "C20": {
+        "text": "Event analyses on _control show the whole parsing/validation loop (and every exit it reaches, all non-zero) precedes the first "
+                "network call, conversion is reached only for existing writable properties, the stored value's decision tree has exactly the "
+                "documented leaves (enum by value / raw int only for FanSpeed / by upper-cased name, bool via capitalised literal, number via "
+                "the default's type), every writable property has a non-None convertible default, and refresh → pop display → toggle-if-"
+                "different → setattr → apply-if-pending ordering holds; manual connect uses port 6444.",
+        "note": TRUST + "argparse and README prose beyond these clauses; clause (d) is partly idiom-pinned (.upper() / .capitalize()), stated in DESIGN.md",
+        "technique": "may/must event (dominance) analysis + value-flow decision-tree extraction + inventory (static analysis)",
+    },
 }
 NOT_APPLICABLE = {}
